@@ -1,4 +1,4 @@
 SPECIFICATION Spec
-INVARIANTS TypeOK RefcountExact AliveWhilePending TracerWhilePending NotWiredWhenReady TracerLast FreedOnce NoUseAfterFree SameResultForAll NoEarlyWake ExactlyOnce AtEnd LateInitWorks LateInitKeepsState RoundComplete NoStuckState
+INVARIANTS TypeOK RefcountExact AliveWhilePending TracerWhilePending NotWiredWhenReady TracerLast FreedOnce NoUseAfterFree SameResultForAll ThrowsAsDocumented NoEarlyWake ExactlyOnce AtEnd LateInitWorks LateInitKeepsState RoundComplete NoStuckState
 PROPERTIES FreedForGood ResultStable NoHang
 CHECK_DEADLOCK FALSE
